@@ -14,7 +14,7 @@ CLAIMS = {
   "Assumed (reported per run in the evidence as ASSUMED PRECONDITION / ASSUMED CLAUSE notes): operand values handed to the leaf operations are well-formed (wfObj: no typed-nil, small arrays within their length bound) - a data invariant of evaluated values that the dispatcher does not establish; (*State).quote's contract; stdlib contracts in contracts/stdlib.contracts; strings shorter than 2^46."),
  "C02": ("proof",
   "Structural core decided on SSA: the printer and the parser take operator precedence from one and the same table (every precedence lookup in packages parser and ast reads ast.Precedences, which nothing writes after package initialisation), so the printer's parenthesisation and the parser's grouping cannot drift apart through a table edit. "
-  "The identity parse(print(t)) = t itself relates two recursive algorithms over all programs (the parser's panic freedom is proved under C08, not what it returns): bounded stand-in over about 7000 source texts (repository examples and tests; every ordered pair of the 18 binary operators in three nestings; every prefix/binary combination; 18 operand forms - if/for/lambda/function/call/index/literal - on both sides of 11 operators and in index/call/prefix/condition positions; every ordered pair of 32 statement forms on consecutive lines, at top level and in a function body; string literals with raw non-UTF-8 bytes and escapes; number spellings; comment placements), normal and compact mode, trees compared both by fully parenthesised print and by a reflection dump that does not go through the printer under test. It found six genuine defects that are fixed (a - (b - c) formatted as a - b - c; adjacent signs in compact mode; a lambda operand and a parenthesised callee losing their parentheses; two word statements printed as one word; a[1:] printed as a[1 : nil]; a lambda statement glued to the statement before it) and two that are recorded (the parentheses of a + chain on the right are dropped, which the repository's own parser test requires; a statement starting with a prefix - or -- right after a parenthesised expression statement or a comment).",
+  "The identity parse(print(t)) = t itself relates two recursive algorithms over all programs (the parser's panic freedom is proved under C08, not what it returns): bounded stand-in over about 7000 source texts (repository examples and tests; every ordered pair of the 18 binary operators in three nestings; every prefix/binary combination; 18 operand forms - if/for/lambda/function/call/index/literal - on both sides of 11 operators and in index/call/prefix/condition positions; every ordered pair of 32 statement forms on consecutive lines, at top level and in a function body; string literals with raw non-UTF-8 bytes and escapes; number spellings; comment placements; grammar-generated programs of nesting depth 3, 400 in the quick tier and 20000 in the thorough tier), normal and compact mode, trees compared both by fully parenthesised print and by a reflection dump that does not go through the printer under test. It found seven genuine defects that are fixed (a - (b - c) formatted as a - b - c; adjacent signs in compact mode; a lambda operand and a parenthesised callee losing their parentheses; two word statements printed as one word; a[1:] printed as a[1 : nil]; a statement starting with ( or [ - a lambda's parameter list, a parenthesised operand - glued to the statement before it in compact mode) and two that are recorded (the parentheses of a + chain on the right are dropped, which the repository's own parser test requires; a statement starting with a prefix - or -- right after a parenthesised expression statement or a comment).",
   "The structural clause is an audit (no SMT obligations). The round trip is bounded only: this is the weakest claim in the set."),
  "C03": ("proof",
   "Structural core decided on SSA: formatting is a function of the tree and the mode flags only - no function reachable from the PrettyPrint methods, DebugString or the PrintState methods reads a package-level variable that is written after initialisation, ranges over a map, or can reach time / random / os functions; this is the 'in any process, after any other inputs were parsed' part of the property, for every input. "
